@@ -161,7 +161,7 @@ def _replay_job(job):
     pre = hj.snapshot(c)
     out = hj.apply(c, calls[-1], RV)
     post = hj.snapshot(c)
-    st = {'c': calls[-1], 'out': out, 'post': post, 'pr': hj.probe_all(c, post, alpha, RV) if alpha else []}
+    st = {'c': calls[-1], 'out': out, 'post': post, 'v': hj.views(c), 'pr': hj.probe_all(c, post, alpha, RV) if alpha else []}
     if extras:
         st['rep'] = hj.replay_log(c)
         st['rt'] = hj.round_trip(c, HJ)
@@ -264,6 +264,8 @@ def run(pid, tier):
             extra = tie['maxh_extra']
             if quick and nath >= 4 and extra > 1:
                 extra -= 1          # the 4-athlete start explores one jump-off height less in the quick tier
+            if not quick and k in (0, 4) and extra > 2:
+                extra -= 1          # three-way jump-offs branch three ways per round: one height less than the two-way ones
             nm = mc_cfg(specdir, 'MC_tie%d' % k, nb_, tie['bars'], nreg + extra, 0, tie['mode'],
                         tie['emit'], invs, starts=[st])
             tie_names.append(nm)
@@ -277,6 +279,15 @@ def run(pid, tier):
             runs.append((specdir, nm, dict(workers=1, simulate='num=%d' % nsim, depth=60,
                                            seed_=common.seed() * 101 + 11 + k, deadlock=False, timeout=TLC_TIMEOUT, heap='2g')))
         from concurrent.futures import ThreadPoolExecutor
+        if os.environ.get('HJ_MODEL_TIMING'):        # development aid: size the models one by one
+            for sd, nm, kw in runs:
+                if os.environ.get('HJ_MODEL_ONLY') and nm not in os.environ['HJ_MODEL_ONLY'].split(','):
+                    continue
+                kw = dict(kw, workers=16 if not kw.get('simulate') else 1, timeout=int(os.environ['HJ_MODEL_TIMING']), check=False)
+                t0 = time.time()
+                r = common.run_tlc(sd, nm, nm + '.cfg', **kw)
+                print('TIMING %s %s: %.0fs distinct=%s generated=%s depth=%s rc=%s %s' % (pid, nm, time.time() - t0, r.distinct, r.generated, r.depth, r.rc, r.errors[:1]), flush=True)
+            raise MachineryError('timing run only')
         with ThreadPoolExecutor(max_workers=len(runs)) as ex:
             results = dict(ex.map(_model_run, runs))
         for nm, r in results.items():
